@@ -856,7 +856,9 @@ func genJar(r *hx.Rand, o lyOpts, depth int, muts *[]string, inflated *uint64) [
 		sort.SliceStable(ms, func(i, j int) bool { return r2.Chance(1, 2) })
 	}
 	for _, m := range ms {
-		if m.method == zip.Deflate && (jarLikeName(m.name) || m.name == "META-INF/MANIFEST.MF") {
+		// (the manifest is read through a 1 MiB limit since e7cfb6f4: it does
+		// not count)
+		if m.method == zip.Deflate && jarLikeName(m.name) {
 			*inflated += uint64(len(m.body))
 		}
 	}
@@ -1295,7 +1297,7 @@ func genDockerfile(r *hx.Rand) []byte {
 
 func partDockerfile(r *hx.Rand, o lyOpts) lyPart {
 	b, m := textVariant(r, o, shapeDocker, func() []byte { return genDockerfile(r) })
-	name := "root/buildinfo/Dockerfile-" + lyPick(r, "ubi8-minimal-8.4-208", "rhel8-toolbox-container-v1.2.3-45", "x-1-2", "etcd-rhel7-3.2.32-34", "a-1", "b", "-", "--", "x--", "c-v4.10.0-202201011200.p0.g1234.assembly.stream")
+	name := "root/buildinfo/Dockerfile" + lyPick(r, "", "-", "-", "-", "-", "-", "-", "-", "-", "-", "-", "-", "-", "-", "-", "-") + lyPick(r, "", "ubi8-minimal-8.4-208", "rhel8-toolbox-container-v1.2.3-45", "x-1-2", "etcd-rhel7-3.2.32-34", "a-1", "b", "-", "--", "x--", "c-v4.10.0-202201011200.p0.g1234.assembly.stream")
 	return lyPart{kind: "dockerfile", muts: m, files: []lyFile{{name: name, body: b}}}
 }
 
